@@ -601,7 +601,7 @@ func shrinkPrefix(prop string, op J, sig string) (J, any, bool) {
 // stableOp: ops whose result is a function of the op line alone (everything except measurements, real
 // handshakes / stress runs, and wall-clock dependent fields, which are private and stripped anyway).
 func stableOp(name string) bool {
-	for _, p := range []string{"cost.", "mtls.handshake", "mtls.replace_handshake", "mtls.stress", "mtls.race"} {
+	for _, p := range []string{"cost.", "mtls.handshake", "mtls.replace_handshake", "mtls.stress", "mtls.race", "mercury.concurrent"} {
 		if strings.HasPrefix(name, p) {
 			return false
 		}
